@@ -6,6 +6,7 @@ from typing import FrozenSet, Iterable, List, Optional, Set
 
 from ..core import Ctx
 from ..flow import Obj
+from ..symex import u
 
 U_READS = {"Cube.unweighted_counts", "Cube.unweighted_valid_counts"}
 W_READS = {"Cube.counts", "Cube.weighted_counts", "Cube.weighted_valid_counts"}
@@ -243,8 +244,8 @@ def generic_lints(ctx: Ctx, rule: str = "lint"):
     from ..loader import AnalysisError
     from ..scope import in_scope
 
-    if L.self_check() != (15, 0):
-        raise AnalysisError(f"generic lints: the positive control is no longer recognised {L.self_check()}")
+    if L.self_check() != (15, 0) or L.orientation_self_check() != (1, 0):
+        raise AnalysisError(f"generic lints: the positive control is no longer recognised {L.self_check()} {L.orientation_self_check()}")
     n, hits = 0, []
     for m in ctx.repo.all_members():
         short = m.cls.module.path.split("cr/cube/")[-1]
@@ -545,3 +546,117 @@ def positional_args(ctx: Ctx, call: ast.Call, callee) -> Optional[List[ast.expr]
     if any(x is None for x in slots):
         return None
     return slots  # type: ignore[return-value]
+
+
+def axis_role_lint(ctx: Ctx, rule: str, entries=None, classes=("_Slice",)):
+    """Row-position collections index axis 0, column-position collections axis 1, and a TUPLE of positions is never the whole
+    subscript.  `entries` restricts the scan to the functions reachable (through self helpers) from those public members."""
+    from .. import indexspace as IS
+    from ..loader import AnalysisError
+    from ..stmts import reachable_functions
+
+    if IS.axis_self_check() != (2, 0):
+        raise AnalysisError("axis-role lint: the positive control is no longer recognised")
+    n, hits = 0, []
+    for cname in classes:
+        ci = ctx.repo.cls("cubepart.py", cname)
+        if entries is None:
+            fns = [(name, m.node) for c in ci.mro for name, m in c.members.items()]
+        else:
+            seen, fns = set(), []
+            for e in entries:
+                if ctx.repo.lookup(ci, e) is None:
+                    continue
+                for fn in reachable_functions(ctx.repo, ci, e):
+                    if id(fn) not in seen:
+                        seen.add(id(fn))
+                        fns.append((getattr(fn, "name", e), fn))
+        for name, fn in fns:
+            if not isinstance(fn, ast.FunctionDef):
+                continue
+            n += 1
+            for _l, kind, text in IS.axis_role_misuse(fn):
+                hits.append((f"cubepart.py::{cname}.{name} [{text.split(':')[0][:60]}]", kind, text))
+    ctx.count("partition functions scanned for axis roles", n)
+    for where, kind, text in hits:
+        ctx.violated(rule, where, text, "rows on axis 0 (`m[list(row_idxs), :]`), columns on axis 1 (`m[:, col_idxs]`)",
+                     "the NaN / selection lands on other vectors than the ones meant (or on a single cell), or raises IndexError for two or more positions")
+    if not hits:
+        ctx.held(rule, f"cubepart.py::{'/'.join(classes)}: every subscript with a position collection", f"{n} functions, every collection stands on its own axis", "", "positive control: 2 of 2 recognised")
+
+
+def value_any_lint(ctx: Ctx, rule: str = "collection-any", shorts=None):
+    """any() / np.any() / all() over a collection of positions or ids tests the VALUES (position 0 is falsy)."""
+    from .. import truthiness as T
+    from ..loader import AnalysisError
+
+    if T.any_self_check() != (1, 0):
+        raise AnalysisError("collection-any lint: the positive control is no longer recognised")
+    shorts = shorts or (ORDER_CODE + ["matrix/cubemeasure.py", "stripe/cubemeasure.py"])
+    n, hits = 0, []
+    for m in ctx.repo.all_members():
+        short = m.cls.module.path.split("cr/cube/")[-1]
+        if short not in shorts:
+            continue
+        n += 1
+        for _l, text in T.value_any_tests(m.node):
+            hits.append((f"{short}::{m.cls.name}.{m.name} [{text[:50]}]", text))
+    for where, text in hits:
+        ctx.violated(rule, where, text, "len(x) / x.size / `is not None`", "the collection holding only position (or id) 0 is taken for empty: the first element is never pruned / hidden / anchored")
+    if not hits:
+        ctx.held(rule, "ordering and pruning code: every any()/all() over positions or ids", f"{n} functions, none tests the values of a position collection", "", "positive control recognised")
+
+
+NAN_TEXTS = ("np.nan", "np.NaN", "float('nan')", "math.nan")
+
+
+def explicit_nan_criterion(ctx: Ctx, rule: str, denominator_words=("base", "margin"), exclude_words=()):
+    """A quotient is undefined exactly where its denominator is zero - and there the division itself yields NaN.  An
+    EXPLICIT NaN written in this property's measure code (np.full(.., nan), np.where(c, nan, ..), `x[m] = nan`, a NaN
+    `out=` default under `where=`) is inspected for the CRITERION that selects the cells: it has to mention the
+    denominator.  A criterion on the numerator (counts), on the extent, ... blanks cells whose base is positive."""
+    from ..scope import in_scope
+    from ..stmts import enclosing_guards, resolver
+
+    n, n_sites, bad = 0, 0, []
+    for m in ctx.repo.all_members():
+        short = m.cls.module.path.split("cr/cube/")[-1]
+        if short not in ("matrix/measure.py", "stripe/measure.py") or not in_scope(ctx.prop, short, m.cls.name, m.name):
+            continue
+        if any(w in (m.cls.name + "." + m.name).lower() for w in exclude_words):
+            continue
+        n += 1
+        fn = m.node
+        if not isinstance(fn, ast.FunctionDef):
+            continue
+        res = resolver(fn, multi=True)
+        for c in ast.walk(fn):
+            crit = None
+            site = None
+            if isinstance(c, ast.Call) and u(c.func) in ("np.full", "np.full_like") and any(u(a) in NAN_TEXTS for a in c.args):
+                site = c
+                crit = [t for t, _p in enclosing_guards(fn, c)]
+                # np.divide(.., out=np.full(.., nan), where=mask): the mask is the criterion
+                for d in ast.walk(fn):
+                    if isinstance(d, ast.Call) and any(k.arg == "out" and k.value is c for k in d.keywords):
+                        crit = [k.value for k in d.keywords if k.arg == "where"] or crit
+            elif isinstance(c, ast.Call) and u(c.func) in ("np.where", "np.putmask", "np.place") and any(u(a) in NAN_TEXTS for a in c.args):
+                site = c
+                crit = [c.args[0] if u(c.func) == "np.where" else c.args[1]] if len(c.args) >= 2 else []
+            elif isinstance(c, ast.Assign) and isinstance(c.targets[0], ast.Subscript) and u(c.value) in NAN_TEXTS:
+                site = c
+                crit = [c.targets[0].slice] + [t for t, _p in enclosing_guards(fn, c)]
+            if site is None:
+                continue
+            n_sites += 1
+            texts = " ".join(u(v) for t in (crit or []) for v in res(t)).lower()
+            if not crit:
+                bad.append((f"{short}::{m.cls.name}.{m.name} [{u(site)[:50]}]", "unconditional", u(site)[:100]))
+            elif not any(w in texts for w in denominator_words):
+                bad.append((f"{short}::{m.cls.name}.{m.name} [{u(site)[:50]}]", texts[:120], u(site)[:100]))
+    ctx.count("members scanned for explicit NaN", n)
+    for where, crit, site in bad:
+        ctx.violated(rule, where, f"{site}  selected by: {crit}", "NaN only from the division, or selected by the denominator",
+                     "cells whose base is positive are blanked (e.g. a multiple-response table nobody selected anything in: counts all zero, bases positive, proportion 0 - not NaN)")
+    if not bad:
+        ctx.held(rule, "this property's measure classes: every explicit NaN", f"{n} members, {n_sites} explicit NaN site(s), each selected by the denominator", "")
